@@ -315,6 +315,43 @@ func genC06(g *gen) {
 	g.line("Definition gen_sequence_writers_under_write_lock : N := %d.", exclusive)
 	g.line("Definition gen_increment_sequence_under_write_lock : bool := %s.", coqBool(incrExclusive))
 
+	// ipNetToProtocolRoute: family from the mask width (bits == 128), prefix length from the
+	// mask's ones, prefix bytes = the address as it is
+	famFromBits, plenFromOnes, rawIP := false, false, false
+	if fd := findFunc(f, "", "ipNetToProtocolRoute"); fd != nil {
+		onesVar, bitsVar := "", ""
+		ast.Inspect(fd.Body, func(n ast.Node) bool {
+			switch x := n.(type) {
+			case *ast.AssignStmt:
+				if len(x.Lhs) == 2 && len(x.Rhs) == 1 && src(x.Rhs[0]) == "network.Mask.Size()" {
+					onesVar, bitsVar = src(x.Lhs[0]), src(x.Lhs[1])
+				}
+			case *ast.IfStmt:
+				if be, ok := x.Cond.(*ast.BinaryExpr); ok && be.Op == token.EQL && bitsVar != "" && bitsVar != "_" && src(be.X) == bitsVar && src(be.Y) == "128" &&
+					len(x.Body.List) == 1 && strings.HasSuffix(src(x.Body.List[0]), "protocol.AddrFamilyIPv6") {
+					famFromBits = true
+				}
+			case *ast.KeyValueExpr:
+				switch src(x.Key) {
+				case "PrefixLength":
+					plenFromOnes = onesVar != "" && src(x.Value) == "uint8("+onesVar+")"
+				case "Prefix":
+					rawIP = src(x.Value) == "[]byte(network.IP)"
+				case "AddressFamily":
+					if src(x.Value) != "family" {
+						famFromBits = false
+					}
+				}
+			}
+			return true
+		})
+	} else {
+		g.note("ipNetToProtocolRoute not found")
+	}
+	g.line("Definition gen_cidr_family_from_mask_width : bool := %s.", coqBool(famFromBits))
+	g.line("Definition gen_cidr_prefix_length_from_mask_ones : bool := %s.", coqBool(plenFromOnes))
+	g.line("Definition gen_cidr_prefix_is_address_bytes : bool := %s.", coqBool(rawIP))
+
 	// HandleRouteAdvertise: the re-flooded routes are a copy with every metric incremented,
 	// the seen-by list gets the local id appended, origin/sequence are passed through
 	metricInc, passesFwd, seenAppend := false, false, false
